@@ -410,8 +410,6 @@ func (c *kase) projectResp(r *protos.InvokeResponse) respObs {
 
 // ------------------------------------------------------------------ pre-execution
 
-func expand(p []step) []step { return p }
-
 func (c *kase) request(prog []step, amt int) *protos.InvokeRequest {
 	pj, _ := json.Marshal(prog)
 	req := &protos.InvokeRequest{ModuleName: "xkernel", ContractName: c.name, MethodName: "run", Args: map[string][]byte{"prog": pj}}
@@ -483,17 +481,6 @@ func (p *parts) transient(key string) *protos.TxOutputExt {
 	return nil
 }
 
-func (p *parts) plain() []int { // indexes of the non-transient writes, in key order
-	idx := []int{}
-	for i, o := range p.outsExt {
-		if o.Bucket != sandbox.TransientBucket {
-			idx = append(idx, i)
-		}
-	}
-	sort.SliceStable(idx, func(a, b int) bool { return string(p.outsExt[idx[a]].Key) < string(p.outsExt[idx[b]].Key) })
-	return idx
-}
-
 func concVal(v string) []byte {
 	if v == "D" {
 		return []byte(sandbox.DelFlag)
@@ -529,14 +516,19 @@ func (c *kase) tamper(p *parts, op fx.Ev) error {
 		}
 		p.insExt = append(p.insExt, &protos.TxInputExt{Bucket: c.name, Key: keyName(n), RefTxid: vd.RefTxid, RefOffset: vd.RefOffset})
 	case "write_drop", "write_val":
-		idx := p.plain()
-		if j < 1 || j > len(idx) {
-			return fmt.Errorf("%s: no write %d", op.Str("tk"), j)
+		at := -1
+		for i, o := range p.outsExt {
+			if c.keyIndex(o.Bucket, o.Key) == n {
+				at = i
+			}
+		}
+		if at < 0 {
+			return fmt.Errorf("%s: key %d is not in the write set", op.Str("tk"), n)
 		}
 		if op.Str("tk") == "write_val" {
-			p.outsExt[idx[j-1]].Value = concVal(v)
+			p.outsExt[at].Value = concVal(v)
 		} else {
-			p.outsExt = append(p.outsExt[:idx[j-1]], p.outsExt[idx[j-1]+1:]...)
+			p.outsExt = append(p.outsExt[:at], p.outsExt[at+1:]...)
 		}
 	case "write_add":
 		p.outsExt = append(p.outsExt, &protos.TxOutputExt{Bucket: c.name, Key: keyName(n), Value: concVal(v)})
@@ -708,14 +700,23 @@ func (c *kase) submit(op fx.Ev) (res string, extra fx.Ev, err error) {
 		return "", nil, err
 	}
 	c.names[hex.EncodeToString(tx.Txid)] = "t"
+	// the node receives the transaction over the wire
+	raw, err := proto.Marshal(tx)
+	if err != nil {
+		return "", nil, err
+	}
+	wire := &pb.Transaction{}
+	if err := proto.Unmarshal(raw, wire); err != nil {
+		return "", nil, err
+	}
 	st := c.w.node.State
-	ok, verr := st.VerifyTx(proto.Clone(tx).(*pb.Transaction))
+	ok, verr := st.VerifyTx(wire)
 	if !ok || verr != nil {
 		extra["stage"] = "verify"
 		extra["err"] = fmt.Sprint(verr)
 		return "reject", extra, nil
 	}
-	if derr := st.DoTx(tx); derr != nil {
+	if derr := st.DoTx(wire); derr != nil {
 		extra["stage"] = "dotx"
 		extra["err"] = derr.Error()
 		return "reject", extra, nil
